@@ -302,6 +302,48 @@ def eq_truth_table(repo, b):
     return bad, rows
 
 
+def candidate_only_escapes_through_ok(repo, fb, bi, si, L=None, depth=0):
+    """an AffineG aggregate built before the checks: it is stored in one local that is afterwards only borrowed immutably (handed to
+    the checking helpers) or moved into the `Ok(..)` the function returns — it cannot leave the constructor any other way"""
+    st = fb.blocks[bi]["stmts"][si]
+    if L is None:
+        if st["place"]["p"]:
+            return False
+        L = st["place"]["l"]
+    if depth > 2:
+        return False
+    for b2, blk in enumerate(fb.blocks):
+        for s2, x in enumerate(blk["stmts"]):
+            if x["k"] != "assign" or (b2 == bi and s2 == si):
+                continue
+            if x["place"]["l"] == L:
+                return False                                  # written again
+            rv = x["rv"]
+            if rv["k"] in ("ref", "rawptr") and rv["place"]["l"] == L and rv.get("mut"):
+                return False
+            ops = []
+            if rv["k"] == "use":
+                ops = [rv["op"]]
+            elif rv["k"] == "aggregate":
+                ops = rv["ops"]
+            for op in ops:
+                if op.get("k") in ("copy", "move") and op["place"]["l"] == L and not op["place"]["p"]:
+                    ok_wrap = rv["k"] == "aggregate" and rv.get("agg") == "adt" and rv.get("adt") == "core::result::Result" and rv.get("variant_name") == "Ok"
+                    if rv["k"] == "use" and not x["place"]["p"] and x["place"]["l"] != 0:
+                        # copied into a temporary: the temporary is bound by the same rule
+                        if not candidate_only_escapes_through_ok(repo, fb, b2, s2, x["place"]["l"], depth + 1):
+                            return False
+                        continue
+                    if not ok_wrap:
+                        return False
+        t = blk["term"]
+        if t["k"] == "call":
+            for a in t["args"]:
+                if a.get("k") in ("copy", "move") and a["place"]["l"] == L and not a["place"]["p"]:
+                    return False                              # passed on by value
+    return True
+
+
 # ====================================================================== C15
 def rules_c15(prop, repo):
     F = repo.F
@@ -437,9 +479,11 @@ def machine_new_table(prop, repo, R, b):
             return False
         out = cb.rec.get("output") or ""
         ins = cb.rec.get("inputs") or []
+        if (cb.impl_trait or "").startswith("core::cmp::"):
+            return False          # `==` on points is the comparison under study, not a validation phase to look inside
         # validation phases and parameter constants, not group arithmetic
         return out.strip() in ("bool", "()") or out.startswith("core::result::Result") or out.startswith("core::option::Option") or (not ins and len(cb.blocks) <= 1) \
-            or (cb.impl_trait == "core::convert::From")
+            or (cb.impl_trait == "core::convert::From") or (ins and len(cb.blocks) <= 3 and not any(t_["k"] == "switch" for t_ in (b_["term"] for b_ in cb.blocks)))      # thin converters (to_jacobian)
 
     def tname(t):
         return t[1].split("::")[-1] if isinstance(t, T) and t[0] == "call" else None
@@ -642,8 +686,9 @@ def rules_c09(prop, repo):
                         R2.instance()
                         ok = fb.rec["path"].split("::{closure")[0] in allowed
                         if ok and fb.rec["path"].endswith("::new"):
-                            # dominated by the true edge of the curve test
-                            ok = any(fb.dominates(s, bi) for s in curve_true_blocks(repo, fb))
+                            # dominated by the true edge of the curve test — or built first as the candidate the checks are then run on:
+                            # what the constructor hands out, and when, is the truth table's business (R-NEW-TT)
+                            ok = any(fb.dominates(s, bi) for s in curve_true_blocks(repo, fb)) or candidate_only_escapes_through_ok(repo, fb, bi, si)
                         R2.check(ok, "%s:affine-site:%s" % (prop, fb.rec["path"]), "an AffineG is built in %s outside the validated paths" % fb.rec["path"], loc_of(fb, bi, si), fb.rec["path"],
                                  sample={"site": fb.rec["path"]})
                     if rv["adt"] in wrap_allowed:
